@@ -20,14 +20,21 @@
 (*                  View: View(op_dense(S)) = op_ADT(View(S)), and its      *)
 (*                  panic guard is exactly the negated shape contract      *)
 (*                  (C03: "independent of the internal storage order").     *)
-(*   BindingFacts   the transcribed ndarray / nalgebra operations commute   *)
-(*                  with View under the stated layout condition (row-major  *)
-(*                  buffer, or a degenerate shape) -- and the Witness...    *)
-(*                  actions are enabled exactly on the stores where they   *)
-(*                  do NOT, so that TLC's action coverage exhibits the      *)
-(*                  defect classes reported by the C20 check (flatten /     *)
-(*                  reshape in memory order, max/min folded from 0, dot on  *)
-(*                  column vectors).                                       *)
+(*   BindingFacts   the transcribed ndarray / nalgebra operations (as they  *)
+(*                  are in the repaired tree) commute with View on every    *)
+(*                  layout.  Next to them the module keeps the MEMORY-ORDER *)
+(*                  variants (MemOrder..., FoldFrom0..., FirstProduct...):  *)
+(*                  flatten / reshape that follow the buffer, max / min     *)
+(*                  folded from 0, dot that multiplies 1xN by Nx1 only,     *)
+(*                  equality on the buffers alone.  These are the shapes    *)
+(*                  the defects found by the C03 / C20 checks had (repaired *)
+(*                  by the `fix:` commits 4709141, 0c6d7e5, bf8c8ce,        *)
+(*                  1896648) and the shape a regression would take again.   *)
+(*                  BindingFacts states exactly when such a variant still   *)
+(*                  commutes with View, and every Witness... action is      *)
+(*                  enabled exactly on the stores where it does not: TLC's  *)
+(*                  action coverage shows that the scope contains inputs    *)
+(*                  that tell the right implementation from the variant.    *)
 (***************************************************************************)
 EXTENDS MatrixADT, TLC
 
@@ -114,23 +121,43 @@ DenseIter(S) == IterLoop(S, 0, 0, <<>>)
 (* ndarray binding, transcribed (src/linalg/ndarray_bindings.rs)           *)
 (***************************************************************************)
 Flip(ord) == IF ord = "F" THEN "C" ELSE "F"
-NdTranspose(S)      == Store(S.c, S.r, Flip(S.ord), S.raw)       \* clone().reversed_axes(): same buffer
-NdToRowVector(S)    == S.raw                                      \* into_shape(n): memory order
-NdReshape(S, nr, nc) == Store(nr, nc, S.ord, S.raw)               \* into_shape((nr, nc)): memory order kept
-(* dot: self.dot(&other.view().reversed_axes())[[0, 0]] -- an (r x c)(c' x r') product *)
-NdDotPanics(S, T) == S.c # T.c
-NdDot(S, T) == SeqSum([k \in 1..S.c |-> Get(S, 1, k) * Get(T, 1, k)])
+NdTranspose(S)   == Store(S.c, S.r, Flip(S.ord), S.raw)          \* clone().reversed_axes(): same buffer
+NdToRowVector(S) == DenseToRowVector(S)                          \* self.iter().copied().collect(): logical order
+(* reshape: as_standard_layout().into_owned().into_shape((nr, nc)) *)
+NdReshape(S, nr, nc) == Store(nr, nc, "C", DenseToRowVector(S))
+(* dot: the two vector-shape guards of DenseMatrix, then a zip of the logical iterators *)
+NdDotPanics(S, T) == \/ (S.r # 1 /\ T.r # 1) /\ (S.c # 1 /\ T.c # 1)
+                     \/ N(S) # N(T)
+NdDot(S, T) == SeqSum([x \in 1..N(S) |-> DenseToRowVector(S)[x] * DenseToRowVector(T)[x]])
+(* ndarray's own PartialEq compares shape and logical content *)
+NdEq(S, T) == S.r = T.r /\ S.c = T.c /\ DenseToRowVector(S) = DenseToRowVector(T)
 (***************************************************************************)
 (* nalgebra binding, transcribed (src/linalg/nalgebra_bindings.rs)         *)
 (***************************************************************************)
-NaToRowVector(S) == S.raw                                         \* reshape_generic keeps the column-major data
+(* to_row_vector: self.transpose().reshape_generic(1, n): the column-major data of the
+   transpose = the row-major data of self *)
+NaToRowVector(S) == NdTranspose(DenseTranspose(S)).raw
 NaReshape(S, nr, nc) == Store(nr, nc, "C", DenseToRowVector(S))   \* row-major copy, from_row_slice
+NaMax(S) == SeqMax(S.raw)                                         \* fold from -infinity
+NaMin(S) == SeqMin(S.raw)                                         \* fold from +infinity
+
+(***************************************************************************)
+(* The memory-order variants (see the header): what the code looks like    *)
+(* when it follows the buffer instead of the logical view                  *)
+(***************************************************************************)
+MemOrderFlatten(S) == S.raw                                       \* into_shape(n) / reshape_generic(1, n)
+MemOrderReshape(S, nr, nc) == Store(nr, nc, S.ord, S.raw)         \* into_shape((nr, nc)) on the buffer
 RECURSIVE FoldMax0(_, _)
 FoldMax0(s, n) == IF n = 0 THEN 0 ELSE Max2(s[n], FoldMax0(s, n - 1))   \* let mut m = T::zero(); m = m.max(v)
-NaMax(S) == FoldMax0(S.raw, N(S))
+FoldFrom0Max(S) == FoldMax0(S.raw, N(S))
 RECURSIVE FoldMin0(_, _)
 FoldMin0(s, n) == IF n = 0 THEN 0 ELSE Min2(s[n], FoldMin0(s, n - 1))
-NaMin(S) == FoldMin0(S.raw, N(S))
+FoldFrom0Min(S) == FoldMin0(S.raw, N(S))
+(* self.dot(&other.reversed_axes())[[0, 0]]: an (r x c)(c' x r') product, entry (0, 0) *)
+FirstProductDotPanics(S, T) == S.c # T.c
+FirstProductDot(S, T) == SeqSum([k \in 1..S.c |-> Get(S, 1, k) * Get(T, 1, k)])
+(* equality decided on the buffers alone (length and content), shapes not compared *)
+BufferOnlyEq(S, T) == N(S) = N(T) /\ S.raw = T.raw
 
 (***************************************************************************)
 (* The state: two stored matrices (all of them are initial states)         *)
@@ -145,18 +172,24 @@ RowMajorLike(S) == S.ord = "C" \/ S.r = 1 \/ S.c = 1          \* memory order = 
 
 Init == A \in Stores /\ B \in Stores
 
-(* witnesses: each is enabled exactly on the inputs where a binding does not commute with View *)
-WitnessNdFlatten == /\ Vec(NdToRowVector(A)) # ToRowVector(View(A)) /\ UNCHANGED vars
-WitnessNdReshape == /\ \E nr \in 1..N(A) : N(A) % nr = 0 /\ View(NdReshape(A, nr, N(A) \div nr)) # Reshape(View(A), nr, N(A) \div nr)
+(* witnesses: each is enabled exactly on the inputs where a memory-order variant does not
+   commute with View *)
+WitnessNdFlatten == /\ Vec(MemOrderFlatten(A)) # ToRowVector(View(A)) /\ UNCHANGED vars
+WitnessNdReshape == /\ \E nr \in 1..N(A) : N(A) % nr = 0 /\ View(MemOrderReshape(A, nr, N(A) \div nr)) # Reshape(View(A), nr, N(A) \div nr)
                     /\ UNCHANGED vars
-WitnessNaFlatten == /\ IsF(A) /\ Vec(NaToRowVector(A)) # ToRowVector(View(A)) /\ UNCHANGED vars
-WitnessNaMax     == /\ NaMax(A) # MaxOf(View(A)) /\ UNCHANGED vars
-WitnessNaMin     == /\ NaMin(A) # MinOf(View(A)) /\ UNCHANGED vars
-WitnessNdDotColumn == /\ A.c = 1 /\ B.c = 1 /\ A.r = B.r /\ ~NdDotPanics(A, B) /\ NdDot(A, B) # Dot(View(A), View(B))
+WitnessNaFlatten == /\ IsF(A) /\ Vec(MemOrderFlatten(A)) # ToRowVector(View(A)) /\ UNCHANGED vars
+WitnessNaMax     == /\ FoldFrom0Max(A) # MaxOf(View(A)) /\ UNCHANGED vars
+WitnessNaMin     == /\ FoldFrom0Min(A) # MinOf(View(A)) /\ UNCHANGED vars
+WitnessNdDotColumn == /\ A.c = 1 /\ B.c = 1 /\ A.r = B.r /\ ~FirstProductDotPanics(A, B)
+                      /\ FirstProductDot(A, B) # Dot(View(A), View(B))
                       /\ UNCHANGED vars
-WitnessNdDotLength == /\ A.c = 1 /\ B.c = 1 /\ A.r # B.r /\ ~NdDotPanics(A, B) /\ UNCHANGED vars   \* accepted, not rejected
+WitnessNdDotLength == /\ A.c = 1 /\ B.c = 1 /\ A.r # B.r /\ ~FirstProductDotPanics(A, B) /\ UNCHANGED vars   \* accepted, not rejected
+(* two stores of different shape whose buffers coincide (1xN against Nx1, a vector against
+   its transpose, constant matrices of equal size, 2x3 against 3x2 with the same column-major
+   data): equality on the buffers alone answers TRUE where the ADT answers FALSE *)
+WitnessEqBufferOnly == /\ BufferOnlyEq(A, B) /\ ~EqM(View(A), View(B)) /\ UNCHANGED vars
 Next == \/ WitnessNdFlatten \/ WitnessNdReshape \/ WitnessNaFlatten \/ WitnessNaMax \/ WitnessNaMin
-        \/ WitnessNdDotColumn \/ WitnessNdDotLength
+        \/ WitnessNdDotColumn \/ WitnessNdDotLength \/ WitnessEqBufferOnly
 Spec == Init /\ [][Next]_vars
 
 (***************************************************************************)
@@ -195,21 +228,31 @@ DenseRefines == /\ IsF(A) => DenseRefines1(A)
                 /\ (IsF(A) /\ IsF(B)) => DenseRefines2(A, B)
 
 (***************************************************************************)
-(* What is true of the bindings                                            *)
+(* The bindings refine the ADT on every layout; the memory-order variants  *)
+(* do so exactly under the stated conditions                               *)
 (***************************************************************************)
 BindingFacts ==
-    /\ View(NdTranspose(A)) = Transpose(View(A))                       \* transpose itself is right
-    /\ RowMajorLike(A) => Vec(NdToRowVector(A)) = ToRowVector(View(A))
+    /\ View(NdTranspose(A)) = Transpose(View(A))
+    /\ Vec(NdToRowVector(A)) = ToRowVector(View(A))
+    /\ \A nr \in 1..N(A) : N(A) % nr = 0 =>
+           /\ View(NdReshape(A, nr, N(A) \div nr)) = Reshape(View(A), nr, N(A) \div nr)
+           /\ View(NaReshape(A, nr, N(A) \div nr)) = Reshape(View(A), nr, N(A) \div nr)
+    /\ IsF(A) => Vec(NaToRowVector(A)) = ToRowVector(View(A))
+    /\ NaMax(A) = MaxOf(View(A)) /\ NaMin(A) = MinOf(View(A))
+    /\ DotDefined(View(A), View(B)) =>
+           /\ NdDotPanics(A, B) <=> ~SameShape(View(A), View(B))
+           /\ ~NdDotPanics(A, B) => NdDot(A, B) = Dot(View(A), View(B))
+    /\ NdEq(A, B) <=> EqM(View(A), View(B))
+    \* ---- the memory-order variants
+    /\ RowMajorLike(A) => Vec(MemOrderFlatten(A)) = ToRowVector(View(A))
     /\ RowMajorLike(A) => \A nr \in 1..N(A) : N(A) % nr = 0 =>
-                              View(NdReshape(A, nr, N(A) \div nr)) = Reshape(View(A), nr, N(A) \div nr)
+                              View(MemOrderReshape(A, nr, N(A) \div nr)) = Reshape(View(A), nr, N(A) \div nr)
     \* ... and after a transpose of a row-major matrix the buffer is NOT row-major any more
     /\ (A.ord = "C" /\ A.r >= 2 /\ A.c >= 2) => ~RowMajorLike(NdTranspose(A))
-    /\ (IsF(A) /\ (A.r = 1 \/ A.c = 1)) => Vec(NaToRowVector(A)) = ToRowVector(View(A))
-    /\ IsF(A) => \A nr \in 1..N(A) : N(A) % nr = 0 =>
-                    View(NaReshape(A, nr, N(A) \div nr)) = Reshape(View(A), nr, N(A) \div nr)
-    /\ (\E x \in 1..N(A) : A.raw[x] >= 0) => NaMax(A) = MaxOf(View(A))  \* right unless all entries are negative
-    /\ (\E x \in 1..N(A) : A.raw[x] <= 0) => NaMin(A) = MinOf(View(A))
-    /\ (A.r = 1 /\ B.r = 1) => /\ NdDotPanics(A, B) <=> ~SameShape(View(A), View(B))
-                               /\ ~NdDotPanics(A, B) => NdDot(A, B) = Dot(View(A), View(B))
-    /\ (A.c = 1 /\ B.c = 1) => ~NdDotPanics(A, B) /\ NdDot(A, B) = Get(A, 1, 1) * Get(B, 1, 1)
+    /\ (\E x \in 1..N(A) : A.raw[x] >= 0) => FoldFrom0Max(A) = MaxOf(View(A))  \* right unless all entries are negative
+    /\ (\E x \in 1..N(A) : A.raw[x] <= 0) => FoldFrom0Min(A) = MinOf(View(A))
+    /\ (A.r = 1 /\ B.r = 1) => /\ FirstProductDotPanics(A, B) <=> ~SameShape(View(A), View(B))
+                               /\ ~FirstProductDotPanics(A, B) => FirstProductDot(A, B) = Dot(View(A), View(B))
+    /\ (A.c = 1 /\ B.c = 1) => ~FirstProductDotPanics(A, B) /\ FirstProductDot(A, B) = Get(A, 1, 1) * Get(B, 1, 1)
+    /\ (A.r = B.r /\ A.c = B.c /\ A.ord = B.ord) => (BufferOnlyEq(A, B) <=> EqM(View(A), View(B)))
 =============================================================================
